@@ -23,6 +23,7 @@ RULE = ('Hypothesis generates (extinction law, 2..6 filters incl. wavelengths ou
         'points of unequal extinction coefficient and cond(normal matrix) <= 1e8 was compared with the reference; '
         'distinct = distinct canonical JSON of the case.')
 RULE += (' ' + 'Also varied: cube packages fitted with a filter list mixing names and wavelengths, cube / convolved files stored in Jy or mJy, .fits.gz convolved files and parameter table, model names longer than 30 characters (cube + wavelength cases), packages rewritten in place, integer-typed photometry.')
+RULE += (' ' + 'models.conf is written as documented or in any other spelling the reader takes as the same declaration (Yes/NO/n, no blanks around =, comment and blank lines, keys in another order).')
 ASSUMPTIONS = [
     'objective-gap tolerance 1e-10*sum(w r^2)+1e-12, parameter tolerance 1e-6*(1+max|p*|) when cond<=1e8 (DESIGN 2.2)',
     'singular regressions (all k equal or <2 fitted points) are outside the stated domain: counted, not asserted',
